@@ -686,6 +686,20 @@ def ob_numeric_split():
     ops = {"dense": V, "sparse": M, "inverse-sparse": Mi, "sparse+sparse": M + M, "2.5*sparse": 2.5 * M, "sparse*dense": M * V, "dense*inv": V * Mi,
            "-(sparse)": -M, "sparse.T": M2.T, "dense.T": V.T, "dense.H": V.H, "blocked": BlockedDiscreteOperator([[V, None], [M, V]]), "sum-generic": V + M,
            "(1+2j)*dense": (1 + 2j) * V}
+    # single precision: a real float32 operator applied to complex data still acts on real and imaginary parts (tolerance of the type)
+    from bempp_cl.api.assembly.discrete_boundary_operator import DenseDiscreteBoundaryOperator
+
+    V32 = laplace.single_layer(dp0, dp0, dp0, parameters=par, precision="single").weak_form()
+    M32 = sparse.identity(dp0, dp0, dp0, parameters=par, precision="single").weak_form()
+    for name, op in (("dense(single precision)", V32), ("DenseDiscreteBoundaryOperator(float32 array)", DenseDiscreteBoundaryOperator(np.asarray(V.to_dense(), dtype="float32"))),
+                     ("sparse(single precision)", M32), ("blocked(single precision)", BlockedDiscreteOperator([[V32, None], [M32, V32]]))):
+        D = np.asarray(op.to_dense(), dtype="float64")
+        x = rng.randn(op.shape[1]) + 1j * rng.randn(op.shape[1])
+        X = rng.randn(op.shape[1], 2) + 1j * rng.randn(op.shape[1], 2)
+        e = max(Z.relerr(op @ x, D @ x), Z.relerr(op @ X, D @ X))
+        if e > 1e-5:
+            return violated("discrete operator %s: matvec / matmat on complex data differs from to_dense by %.2e (imaginary part lost?)" % (name, e), witness={"operator": name},
+                            signature="numeric-split/single/" + name, replay={"callable": "checks.c14:replay_numeric_split", "kwargs": {}, "confirmed": True})
     for name, op in ops.items():
         D = np.asarray(op.to_dense())
         x = rng.randn(op.shape[1]) + 1j * rng.randn(op.shape[1])
